@@ -932,16 +932,16 @@ def _unique_inds(ar):
 
     """
     ar = np.asanyarray(ar).flatten()
-    ar.sort()
-    aux = ar
+    aux = np.sort(ar)
 
     mask = np.empty(aux.shape, dtype=np.bool_)
     mask[:1] = True
     mask[1:] = aux[1:] != aux[:-1]
 
-    ar_inds = [np.where(ar == ii)[0] for ii in ar[mask]]
+    # Indices must refer to positions in the original (unsorted) array
+    ar_inds = [np.where(ar == ii)[0] for ii in aux[mask]]
 
-    return ar[mask], ar_inds
+    return aux[mask], ar_inds
 
 
 ###################################################
